@@ -271,6 +271,51 @@ def segResult (c : RepCtx) (o : SegObs) : SegRes :=
     duration := some (if c.mediaTs = some 0 ∨ c.dashTs = 0 then sumDurs o.samples else obsDuration c o),
     nextDecode := some ((o.tfdt : Int) + (sumDurs o.samples : Int)) }
 
+/-! ## segment availability (media_segment.py:71-111)
+
+`set_segment_availability` gives every MediaSegment of a live Representation the wall-clock
+interval in which it may be requested; `validate_segment` consults it before anything is
+fetched: a segment whose interval has not begun is left for a later pass, a segment whose
+interval ends less than two seconds from now is marked validated WITHOUT being fetched or
+checked.  All instants are microseconds. -/
+
+/-- `timecode_to_timedelta` (utils/date_time.py:264-269): `timecode * 10^6 // timescale` -/
+def tcToUs (tc : Int) (ts : Nat) : Int := tc * 1000000 / (ts : Int)
+
+structure Avail where
+  start : Int
+  stop : Int
+  deriving DecidableEq, Repr
+
+/-- the safety margin of `validate_segment` (:107): two seconds -/
+def availMarginUs : Int := 2000000
+
+/-- media_segment.py:71-88.  `segDur` is the `seg_duration` of the caller
+(SegmentTemplate@duration, or the mean of the timeline), `periodAstUs` =
+`Period.availability_start_time()`, `tsbdUs` = MPD@timeShiftBufferDepth.
+start = the instant the segment is complete; stop = start + depth + ONE MORE segment duration -/
+def segmentAvailability (periodAstUs tsbdUs : Int) (ts : Nat) (pto startNumber segDur : Int)
+    (e : SegExp) : Avail :=
+  let decode : Int := match e.expDecode with
+    | some d => d
+    | none => (e.expSeq.getD 0 - startNumber) * segDur
+  let start := periodAstUs + tcToUs (decode + segDur - pto) ts
+  { start := start, stop := start + tsbdUs + tcToUs segDur ts }
+
+/-- what `validate_segment` does with a segment before any request (:94-111) -/
+inductive Fetch
+  | notYet
+  | expired
+  | fetch
+  deriving DecidableEq, Repr
+
+def availDecision (nowUs : Int) : Option Avail → Fetch
+  | none => .fetch
+  | some a =>
+    if a.start > nowUs then .notYet
+    else if a.stop < nowUs + availMarginUs then .expired
+    else .fetch
+
 /-! ## `Representation.validate` – the loop over media segments (representation.py:514-566) -/
 
 /-- what happens when `seg.validate()` is called on a segment not validated before
